@@ -24,6 +24,8 @@ enum Ty {
     Unknown(String),
 }
 
+mod shape;
+
 #[derive(Clone, Debug)]
 struct Field {
     name: String,
@@ -401,11 +403,8 @@ fn scan_file(module: &str, file: &syn::File, raw_structs: &mut Vec<(String, syn:
     }
 }
 
-/// Classify an `into_stream` body. The recognised shape is
-///   write_packet_with_ack(input)?; loop { p = read_packet()?; write_packet(Ack)?; match p { FINALS => { yield p; break; } _ => yield p } }
-/// Returns (kind, finals).
-fn classify_into_stream(f: &syn::ImplItemFn) -> (String, Vec<String>) {
-    // find the try_stream! macro
+/// the tokens of the `try_stream!` inside a function body
+fn try_stream_tokens(block: &syn::Block) -> Option<proc_macro2::TokenStream> {
     struct Finder(Option<proc_macro2::TokenStream>);
     impl<'ast> syn::visit::Visit<'ast> for Finder {
         fn visit_macro(&mut self, m: &'ast syn::Macro) {
@@ -415,140 +414,36 @@ fn classify_into_stream(f: &syn::ImplItemFn) -> (String, Vec<String>) {
         }
     }
     let mut finder = Finder(None);
-    syn::visit::visit_impl_item_fn(&mut finder, f);
-    let Some(tokens) = finder.0 else { return ("unknown:no try_stream".into(), vec![]) };
-    let block: syn::Block = match syn::parse2(quote::quote!({ #tokens })) {
-        Ok(b) => b,
-        Err(e) => return (format!("unknown:unparsable body {e}"), vec![]),
-    };
-    // statement 1: src.write_packet_with_ack(input).await?;
-    let stmts = &block.stmts;
-    if stmts.len() != 2 {
-        return (format!("unknown:{} statements", stmts.len()), vec![]);
-    }
-    if norm(&stmts[0]) != "src.write_packet_with_ack(input).await?;" {
-        return (format!("unknown:first statement {}", norm(&stmts[0])), vec![]);
-    }
-    let lp = match &stmts[1] {
-        syn::Stmt::Expr(syn::Expr::Loop(l), _) => l,
-        other => return (format!("unknown:second statement {}", norm(other)), vec![]),
-    };
-    let ls = &lp.body.stmts;
-    if ls.len() != 3 && ls.len() != 5 {
-        return (format!("unknown:loop has {} statements", ls.len()), vec![]);
-    }
-    // let X = src.read_packet().await?;
-    let var = match &ls[0] {
-        syn::Stmt::Local(l) => {
-            let init = l.init.as_ref().map(|i| norm(&i.expr)).unwrap_or_default();
-            if init != "src.read_packet().await?" {
-                return (format!("unknown:loop read {}", init), vec![]);
-            }
-            norm(&l.pat)
-        }
-        other => return (format!("unknown:loop stmt0 {}", norm(other)), vec![]),
-    };
-    let ack = norm(&ls[1]);
-    if ack != "src.write_packet(&packets::Ack{}).await?;" {
-        return (format!("unknown:loop ack {}", ack), vec![]);
-    }
-    // variant names in an or-pattern of `Variant(_)`
-    fn collect(p: &syn::Pat, out: &mut Vec<String>) -> bool {
-        match p {
-            syn::Pat::Or(o) => o.cases.iter().all(|c| collect(c, out)),
-            syn::Pat::TupleStruct(ts) => {
-                if ts.elems.len() == 1 && matches!(ts.elems[0], syn::Pat::Wild(_)) {
-                    out.push(ts.path.segments.last().unwrap().ident.to_string());
-                    true
-                } else {
-                    false
-                }
-            }
-            _ => false,
-        }
-    }
-    let mut finals = vec![];
-    if ls.len() == 5 {
-        // the same loop written as
-        //   let F = matches!(X, FINALS); yield X; if F { break; }
-        let flag = match &ls[2] {
-            syn::Stmt::Local(l) => {
-                let Some(init) = l.init.as_ref() else { return ("unknown:flag without value".into(), vec![]) };
-                let syn::Expr::Macro(m) = &*init.expr else { return (format!("unknown:flag {}", norm(&init.expr)), vec![]) };
-                if !m.mac.path.is_ident("matches") {
-                    return (format!("unknown:flag macro {}", norm(&m.mac.path)), vec![]);
-                }
-                let parsed = m.mac.parse_body_with(|ps: syn::parse::ParseStream| {
-                    let e: syn::Expr = ps.parse()?;
-                    let _: syn::Token![,] = ps.parse()?;
-                    let p = syn::Pat::parse_multi_with_leading_vert(ps)?;
-                    let _: Option<syn::Token![,]> = ps.parse()?;
-                    if !ps.is_empty() {
-                        return Err(ps.error("guard or extra tokens"));
-                    }
-                    Ok((e, p))
-                });
-                let Ok((e, pat)) = parsed else { return ("unknown:matches! arguments".into(), vec![]) };
-                if norm(&e) != var || !collect(&pat, &mut finals) {
-                    return (format!("unknown:matches!({}, {})", norm(&e), norm(&pat)), vec![]);
-                }
-                norm(&l.pat)
-            }
-            other => return (format!("unknown:loop stmt2 {}", norm(other)), vec![]),
-        };
-        if norm(&ls[3]) != format!("yield{var};") {
-            return (format!("unknown:loop stmt3 {}", norm(&ls[3])), vec![]);
-        }
-        if norm(&ls[4]) != format!("if{flag}{{break;}}") {
-            return (format!("unknown:loop stmt4 {}", norm(&ls[4])), vec![]);
-        }
-        return ("loop".into(), finals);
-    }
-    let m = match &ls[2] {
-        syn::Stmt::Expr(syn::Expr::Match(m), _) => m,
-        other => return (format!("unknown:loop stmt2 {}", norm(other)), vec![]),
-    };
-    if norm(&m.expr) != var {
-        return (format!("unknown:match on {}", norm(&m.expr)), vec![]);
-    }
-    if m.arms.len() < 2 {
-        return (format!("unknown:{} match arms", m.arms.len()), vec![]);
-    }
-    // one or several arms `FINALS => { yield X; break; }`, then `_ => yield X`
-    let (last, firsts) = m.arms.split_last().unwrap();
-    for arm in firsts {
-        let final_body = norm(&arm.body);
-        if final_body != format!("{{yield{var};break;}}") {
-            return (format!("unknown:final arm body {}", final_body), vec![]);
-        }
-        if arm.guard.is_some() {
-            return ("unknown:guard on final arm".into(), vec![]);
-        }
-        if !collect(&arm.pat, &mut finals) {
-            return (format!("unknown:final pattern {}", norm(&arm.pat)), vec![]);
-        }
-    }
-    if norm(&last.pat) != "_" || last.guard.is_some() || (norm(&last.body) != format!("yield{var}") && norm(&last.body) != format!("{{yield{var};}}")) {
-        return (format!("unknown:default arm {} => {}", norm(&last.pat), norm(&last.body)), vec![]);
-    }
-    ("loop".into(), finals)
+    syn::visit::visit_block(&mut finder, block);
+    finder.0
 }
 
-/// The default `Sequence::into_stream` in the trait definition must have the "once" shape.
-fn check_default_into_stream(file: &syn::File) -> Result<(), String> {
+/// Classify an `into_stream` body by evaluating it once per variant of the reply enum (see shape.rs).
+/// Returns (kind, finals).
+fn classify_into_stream(f: &syn::ImplItemFn, enum_name: &str, variants: &[String], helpers: &shape::Helpers, rpwa_ok: bool) -> (String, Vec<String>) {
+    match try_stream_tokens(&f.block) {
+        Some(t) => shape::classify(t, enum_name, variants, helpers, rpwa_ok),
+        None => ("unknown:no try_stream".into(), vec![]),
+    }
+}
+
+/// The default `Sequence::into_stream` in the trait definition must be a "once" body: command + acknowledgement, one
+/// reply read, acknowledged and yielded.
+fn check_default_into_stream(file: &syn::File, rpwa_ok: bool) -> Result<(), String> {
+    let helpers = shape::collect_helpers(file);
     for item in &file.items {
         if let syn::Item::Trait(t) = item {
             if t.ident == "Sequence" {
                 for ti in &t.items {
                     if let syn::TraitItem::Fn(f) = ti {
                         if f.sig.ident == "into_stream" {
-                            let body = norm(f.default.as_ref().ok_or("no default body")?);
-                            // normalise: drop comments (already gone), compare the try_stream body
-                            let want = "src.write_packet_with_ack(input).await?;letpacket=src.read_packet().await?;src.write_packet::<packets::Ack>(&packets::Ack{}).await?;yieldpacket;";
-                            if body.contains(want) {
+                            let body = f.default.as_ref().ok_or("no default body")?;
+                            let tokens = try_stream_tokens(body).ok_or("default into_stream without try_stream")?;
+                            let (kind, _) = shape::classify(tokens, "Output", &["AnyReply".to_string()], &helpers, rpwa_ok);
+                            if kind == "once" {
                                 return Ok(());
                             }
-                            return Err(format!("default into_stream body changed: {}", body));
+                            return Err(format!("default into_stream body is not `command, one reply` ({kind}): {}", shape::norm(body)));
                         }
                     }
                 }
@@ -719,6 +614,7 @@ fn main() {
     let known_enums: HashSet<String> = enums.iter().map(|e| e.name.clone()).collect();
 
     // ---- sequences
+    let rpwa_ok = parsed.get("io").map(shape::read_packet_with_ack_ok).unwrap_or(false);
     let mut seqs: Vec<Seq> = vec![];
     for (module, i) in &impls {
         let Some((_, tr, _)) = &i.trait_ else { continue };
@@ -732,25 +628,29 @@ fn main() {
         let mut kind = "once".to_string();
         let mut finals = vec![];
         for it in &i.items {
-            match it {
-                syn::ImplItem::Type(t) => {
-                    if let syn::Type::Path(tp) = &t.ty {
-                        if t.ident == "Input" {
-                            input = resolve(module, &tp.path, &known).unwrap_or_else(|| format!("?{}", norm(tp)));
-                        } else if t.ident == "Output" {
-                            let segs: Vec<String> = tp.path.segments.iter().map(|s| s.ident.to_string()).filter(|s| s != "crate" && s != "super").collect();
-                            let tail = segs.join("::");
-                            let cands = [format!("{module}::{tail}"), tail.clone(), format!("feig::{tail}")];
-                            output = cands.iter().find(|c| known_enums.contains(*c)).cloned().unwrap_or_else(|| format!("?{tail}"));
-                        }
+            if let syn::ImplItem::Type(t) = it {
+                if let syn::Type::Path(tp) = &t.ty {
+                    if t.ident == "Input" {
+                        input = resolve(module, &tp.path, &known).unwrap_or_else(|| format!("?{}", norm(tp)));
+                    } else if t.ident == "Output" {
+                        let segs: Vec<String> = tp.path.segments.iter().map(|s| s.ident.to_string()).filter(|s| s != "crate" && s != "super").collect();
+                        let tail = segs.join("::");
+                        let cands = [format!("{module}::{tail}"), tail.clone(), format!("feig::{tail}")];
+                        output = cands.iter().find(|c| known_enums.contains(*c)).cloned().unwrap_or_else(|| format!("?{tail}"));
                     }
                 }
-                syn::ImplItem::Fn(f) if f.sig.ident == "into_stream" => {
-                    let (k, fs) = classify_into_stream(f);
+            }
+        }
+        for it in &i.items {
+            if let syn::ImplItem::Fn(f) = it {
+                if f.sig.ident == "into_stream" {
+                    let variants: Vec<String> = enums.iter().find(|e| e.name == output).map(|e| e.variants.iter().map(|(v, _)| v.clone()).collect()).unwrap_or_default();
+                    let helpers = parsed.get(module.as_str()).map(shape::collect_helpers).unwrap_or_default();
+                    let enum_last = output.rsplit("::").next().unwrap_or("").to_string();
+                    let (k, fs) = classify_into_stream(f, &enum_last, &variants, &helpers, rpwa_ok);
                     kind = k;
                     finals = fs;
                 }
-                _ => {}
             }
         }
         // canonical order of the final variants: the order in which the reply enum declares them (the or-pattern may list
@@ -765,7 +665,7 @@ fn main() {
     if !lab {
         match parsed.get("sequences") {
             Some(f) => {
-                if let Err(e) = check_default_into_stream(f) {
+                if let Err(e) = check_default_into_stream(f, rpwa_ok) {
                     problems.push(e);
                 }
             }
@@ -832,26 +732,30 @@ fn main() {
     // ---- file ids (convert_dir) and client constants
     let mut file_ids: Vec<(String, u64)> = vec![];
     if let Some(f) = parsed.get("feig::sequences") {
-        for item in &f.items {
-            if let syn::Item::Fn(func) = item {
-                if func.sig.ident == "convert_dir" {
-                    struct V<'a>(&'a mut Vec<(String, u64)>);
-                    impl<'ast, 'a> syn::visit::Visit<'ast> for V<'a> {
-                        fn visit_expr_tuple(&mut self, t: &'ast syn::ExprTuple) {
-                            if t.elems.len() == 2 {
-                                let a = norm(&t.elems[0]);
-                                if let (Some(p), syn::Expr::Lit(l)) = (a.strip_prefix("Path::new(\"").and_then(|x| x.strip_suffix("\")")), &t.elems[1]) {
-                                    if let syn::Lit::Int(i) = &l.lit {
-                                        self.0.push((p.to_string(), lit_u64(i)));
-                                    }
-                                }
-                            }
+        // the table `(path, id)` of convert_dir: an array of pairs (string or `Path::new(string)`, integer literal), inside the
+        // function or in a constant next to it
+        struct V<'a>(&'a mut Vec<(String, u64)>);
+        impl<'ast, 'a> syn::visit::Visit<'ast> for V<'a> {
+            fn visit_expr_tuple(&mut self, t: &'ast syn::ExprTuple) {
+                if t.elems.len() == 2 {
+                    let a = norm(&t.elems[0]);
+                    let path = a.strip_prefix("Path::new(\"").and_then(|x| x.strip_suffix("\")"))
+                        .or_else(|| a.strip_prefix("std::path::Path::new(\"").and_then(|x| x.strip_suffix("\")")))
+                        .or_else(|| a.strip_prefix('"').and_then(|x| x.strip_suffix('"')));
+                    if let (Some(p), syn::Expr::Lit(l)) = (path, &t.elems[1]) {
+                        if let syn::Lit::Int(i) = &l.lit {
+                            self.0.push((p.to_string(), lit_u64(i)));
                         }
                     }
-                    syn::visit::visit_item_fn(&mut V(&mut file_ids), func);
+                }
+            }
+            fn visit_item_mod(&mut self, m: &'ast syn::ItemMod) {
+                if !is_cfg_test(&m.attrs) {
+                    syn::visit::visit_item_mod(self, m);
                 }
             }
         }
+        syn::visit::visit_file(&mut V(&mut file_ids), f);
     }
     if file_ids.is_empty() && !lab {
         problems.push("convert_dir table not found".into());
@@ -907,6 +811,28 @@ fn main() {
     if !lab {
         grab_consts("zvt_feig_terminal/src/feig.rs", &mut consts, &mut problems);
         grab_consts("zvt_feig_terminal/src/stream.rs", &mut consts, &mut problems);
+        // a retry budget spelled with named constants (`throttle(RETRY_DELAY).take(RETRY_ATTEMPTS)`): their values
+        let snapshot = consts.clone();
+        for (k, v) in consts.iter_mut() {
+            if k.starts_with("RETRY[") {
+                if let Value::String(sv) = v {
+                    let resolved: Vec<String> = sv
+                        .split(' ')
+                        .map(|part| match part.split_once('=') {
+                            Some((lhs, rhs)) => {
+                                let name = rhs.rsplit("::").next().unwrap_or(rhs);
+                                match snapshot.get(name) {
+                                    Some(Value::String(val)) if !name.starts_with("RETRY[") => format!("{lhs}={val}"),
+                                    _ => part.to_string(),
+                                }
+                            }
+                            None => part.to_string(),
+                        })
+                        .collect();
+                    *sv = resolved.join(" ");
+                }
+            }
+        }
     }
 
     for s in &ordered {
@@ -988,6 +914,9 @@ fn main() {
     writeln!(l, "def consts : List (String × String) := [{}]\n", consts.iter().map(|(k, v)| format!("({}, {})", lean_str(k), lean_str(v.as_str().unwrap()))).collect::<Vec<_>>().join(",\n  ")).unwrap();
     writeln!(l, "/-- constructs the translator could not translate (must be empty). -/").unwrap();
     writeln!(l, "def problems : List String := [{}]\n", problems.iter().map(|p| lean_str(p)).collect::<Vec<_>>().join(",\n  ")).unwrap();
+    // the problems that concern packet types and reply enums (the tables C03 is about)
+    let layout_problems: Vec<&String> = problems.iter().filter(|p| !(p.starts_with("sequence ") || p.contains("into_stream") || p.starts_with("trait Sequence") || p.starts_with("convert_dir") || p.starts_with("ErrorMessages") || p.starts_with("no Display message") || p.starts_with("constants.rs"))).collect();
+    writeln!(l, "def layoutProblems : List String := [{}]\n", layout_problems.iter().map(|p| lean_str(p)).collect::<Vec<_>>().join(",\n  ")).unwrap();
     writeln!(l, "end {lean_ns}").unwrap();
     write_if_changed(&out_lean, &l);
 
